@@ -14,11 +14,41 @@ use neurons::tensor::{Data, Tensor};
 
 pub struct C01;
 
-pub const REL_M: f64 = 1e-3;
+pub const REL_M: f64 = 1e-5;
+pub const K_DE: f64 = 16.0;
 
-/// `|got - d| <= 1e-3 * m + tiny` where m is the derivative evaluated on absolute values.
+/// Tolerance for one gradient entry: a multiple of the first-order bound on what a correct
+/// single-precision implementation can deviate (rounding of the summed terms AND the effect of
+/// forward rounding errors on the derivative factors), plus 1e-5 of the summed magnitude.
+pub fn grad_tol(d: &D) -> f64 {
+    K_DE * d.de + REL_M * d.m + 1e-30
+}
+
 pub fn grad_ok(got: f32, d: &D) -> bool {
-    got.is_finite() && (got as f64 - d.d).abs() <= REL_M * d.m + 1e-30
+    got.is_finite() && (got as f64 - d.d).abs() <= grad_tol(d)
+}
+
+/// Records how much of the tolerance an accepted entry used (evidence of the margin).
+pub fn margin(out: &mut Out, got: f32, d: &D, extra: f64) {
+    let dev = ((got as f64 - d.d).abs() - extra).max(0.0);
+    if d.m > 0.0 {
+        let loose = K_DE * d.de / d.m;
+        if loose > 0.1 {
+            out.count("entries_whose_tolerance_exceeds_10%_of_the_term_magnitude", 1);
+        } else if loose > 0.01 {
+            out.count("entries_whose_tolerance_is_1%_to_10%_of_the_term_magnitude", 1);
+        }
+    }
+    let unit = d.de + REL_M * d.m / K_DE + 1e-32;
+    let r = dev / unit;
+    if r > 16.0 && std::env::var("NV_DEBUG").is_ok() {
+        eprintln!("MARGIN r={:.1} got={:e} d={:e} m={:e} de={:e} key={}", r, got, d.d, d.m, d.de, out.key);
+    }
+    if r > 16.0 {
+        out.count("accepted_entries_using_more_than_a_quarter_of_the_tolerance", 1);
+    } else if r > 4.0 {
+        out.count("accepted_entries_using_1/16_to_1/4_of_the_tolerance", 1);
+    }
 }
 
 /// Away from kinks, max-pool ties and sigmoid saturation (where y(1-y) loses relative accuracy
@@ -258,6 +288,7 @@ fn layer_case(rng: &mut Rng, idx: u64, out: &mut Out) {
             if d.d != 0.0 {
                 out.count("gradient_entries_nonzero", 1);
             }
+            margin(out, igf[j], &d, 0.0);
             if !grad_ok(igf[j], &d) {
                 out.viol(
                     &format!("backward:{}:input-gradient", kind),
@@ -278,6 +309,9 @@ fn layer_case(rng: &mut Rng, idx: u64, out: &mut Out) {
             out.count("gradient_entries_compared", 1);
             if d.d != 0.0 {
                 out.count("gradient_entries_nonzero", 1);
+            }
+            if let Some(g) = got {
+                margin(out, g, d, 0.0);
             }
             match got {
                 None => {
@@ -488,7 +522,7 @@ fn network_case(rng: &mut Rng, idx: u64, out: &mut Out) {
             .map(|(co, _)| {
                 let same: Vec<&D> = refs.iter().filter(|(c2, _)| c2.0 == co.0 && c2.2 == co.2).map(|(_, d)| d).collect();
                 let k = same.len() as f64;
-                (*co, D { v: 0.0, d: same.iter().map(|d| d.d).sum::<f64>() / k, m: same.iter().map(|d| d.m).sum::<f64>() / k })
+                (*co, D { v: 0.0, d: same.iter().map(|d| d.d).sum::<f64>() / k, m: same.iter().map(|d| d.m).sum::<f64>() / k, e: 0.0, de: same.iter().map(|d| d.de).sum::<f64>() / k + 4.0 * EPS32 * same.iter().map(|d| d.d.abs()).sum::<f64>() / k })
             })
             .collect()
     } else {
@@ -509,13 +543,16 @@ fn network_case(rng: &mut Rng, idx: u64, out: &mut Out) {
         }
         let extra = if via_learn { 4e-7 * params[co.0].flat().get(co.2).map(|v| v.abs() as f64).unwrap_or(2.0).max(1.0) / lr as f64 } else { 0.0 };
         let ok = match got {
-            Some(g) => g.is_finite() && (*g as f64 - d.d).abs() <= REL_M * d.m + extra + 1e-30,
+            Some(g) => g.is_finite() && (*g as f64 - d.d).abs() <= grad_tol(d) + extra,
             None => false,
         };
+        if let (true, Some(g)) = (ok, got) {
+            margin(out, *g, d, extra);
+        }
         if !ok {
             mismatches += 1;
             if let Some(g) = got {
-                if softmax && (*g as f64 - factor * d.d).abs() <= 2.0 * REL_M * d.m * factor.abs().max(1.0) + extra + 1e-30 {
+                if softmax && (*g as f64 - factor * d.d).abs() <= 2.0 * grad_tol(d) * factor.abs().max(1.0) + extra {
                     explained += 1;
                 }
             }
@@ -554,7 +591,7 @@ impl Monitor for C01 {
         vec![("layers", tier.pick(6480, 160_000)), ("networks", tier.pick(1260, 25_200))]
     }
     fn rule(&self) -> &'static str {
-        "layers: case i -> (kind in conv/deconv/dense/pool, activation, geometry from the covering walk over the 108 (kernel 1..3, stride 1..3, padding 0..3, dilation 1..3) tuples per axis, channels/filters 1..3, extents up to 7, repetition-free weights/inputs/upstream gradient in [-1.5,1.5]); the layer's public backward(u, x, pre) is compared entry by entry with the forward-mode dual-number derivative of <u, post(x; theta)> w.r.t. every input element and every weight/bias/kernel element (|g - d| <= 1e-3 * m, m = the same derivative on absolute values); the input gradient must have the input's shape. networks: depth 2..5, any mix of dense/conv/deconv/pool that fits, every third with a feedback block (1..3 loops, no skips; gradients compared per unrolled copy), all seven objectives; gradients taken from the hooked Network::backward or (every third case) from the parameter change of one learn() step with plain SGD; oracle = derivative of the objective value for AE/MSE/BCE/KL and for soft-max + cross-entropy, of <objective gradient, output> for MAE/RMSE/CE. Instances within 1e-3 of a ReLU kink / pool tie or with saturated sigmoid (pre > 6) are regenerated. Distinct = distinct configuration descriptors."
+        "layers: case i -> (kind in conv/deconv/dense/pool, activation, geometry from the covering walk over the 108 (kernel 1..3, stride 1..3, padding 0..3, dilation 1..3) tuples per axis, channels/filters 1..3, extents up to 7, repetition-free weights/inputs/upstream gradient in [-1.5,1.5]); the layer's public backward(u, x, pre) is compared entry by entry with the forward-mode dual-number derivative of <u, post(x; theta)> w.r.t. every input element and every weight/bias/kernel element (|g - d| <= 16 * de + 1e-5 * m: de = first-order bound on the deviation of a correct f32 evaluation incl. the effect of forward rounding on the derivative factors, m = the same derivative on absolute values); the input gradient must have the input's shape. networks: depth 2..5, any mix of dense/conv/deconv/pool that fits, every third with a feedback block (1..3 loops, no skips; gradients compared per unrolled copy), all seven objectives; gradients taken from the hooked Network::backward or (every third case) from the parameter change of one learn() step with plain SGD; oracle = derivative of the objective value for AE/MSE/BCE/KL and for soft-max + cross-entropy, of <objective gradient, output> for MAE/RMSE/CE. Instances within 1e-3 of a ReLU kink / pool tie or with saturated sigmoid (pre > 6) are regenerated. Distinct = distinct configuration descriptors."
     }
     fn assumptions(&self) -> Vec<&'static str> {
         vec![
